@@ -907,6 +907,10 @@ impl<'a, F: Float, K: 'a + Permutable<F>> SolverState<'a, F, K> {
     }
 }
 
+#[cfg(linfa_verif)]
+#[path = "verif_hooks_c13.rs"]
+pub mod verif_hooks_c13;
+
 #[cfg(test)]
 mod tests {
     use super::{SolverParams, SolverState};
